@@ -888,7 +888,7 @@ _BUILTINS = {
     "dict": dict, "set": set, "range": range, "min": min, "max": max, "abs": abs, "ord": ord, "chr": chr, "sum": sum,
     "sorted": sorted, "reversed": reversed, "enumerate": enumerate, "zip": zip, "repr": repr, "divmod": divmod, "any": any,
     "all": all, "memoryview": memoryview, "float": float, "iter": iter, "next": next, "getattr": getattr, "hasattr": hasattr,
-    "isinstance": isinstance,
+    "isinstance": isinstance, "map": map, "filter": filter,
     "True": True, "False": False, "None": None,
 }
 _BUILTIN_EXC = {n: getattr(__import__("builtins"), n) for n in (
@@ -1112,6 +1112,11 @@ class MiniVM:
             return None
         if fn is isinstance:
             return self._isinstance(*args)
+        if fn is map or fn is filter:
+            seqs = [a.collect() if isinstance(a, VMGenerator) else list(a) for a in args[1:]]
+            if fn is map:
+                return [self.call(args[0], list(xs), {}) for xs in zip(*seqs)]
+            return [x for x in seqs[0] if (self.truth(self.call(args[0], [x], {})) if args[0] is not None else self.truth(x))]
         if fn is getattr:
             try:
                 return self.getattr(args[0], args[1])
